@@ -149,6 +149,8 @@ class LoopSpec:
                 vars[n] = self.cfg.havoc_like(path, vars[n], n)
             # names not yet bound stay unbound (first assignment happens in the body)
         self.cfg.havoc_modifies(path, self.top, path.entry_env, 'loop')
+        henv = {k: v for k, v in self.env(path).items() if k != 'old'}
+        path.headstate = {'env': henv, 'ghost': path.ghost, 'heap': {oid: o.clone() for oid, o in path.heap.items()}, 'lazy': path.lazy, 'loop': self.label}
 
 
 class Config:
@@ -251,7 +253,7 @@ class Config:
             return path.fresh_sym('int', hint)
         if isinstance(t, C.IntRange):
             s = path.fresh_sym('int', hint)
-            path.pc.append(z3.And(s.t >= t.lo, s.t <= t.hi))
+            path.add_def(z3.And(s.t >= t.lo, s.t <= t.hi))
             return s
         if t is C.Bool:
             return path.fresh_sym('bool', hint)
@@ -280,17 +282,22 @@ class Config:
             mdl = self.reg.models.get(t.name)
             if mdl is None:
                 raise Unsupported(f'no class model {t.name}')
-            cls = resolve_class(t.name) if ':' in t.name and not t.name.startswith('ghost:') else None
+            cls = resolve_class(t.name) if ':' in t.name and not t.name.startswith('ghost:') and '<locals>' not in t.name else None
             fields = {}
             for fname, ft in mdl.fields.items():
                 ft = t.overrides.get(fname, ft)
-                fields[fname] = self.fresh(path, ft, f'{hint}.{fname}')
+                if isinstance(ft, C.OneOf) and len(ft.values) > 1:
+                    from .values import LazyVal
+
+                    fields[fname] = LazyVal(ft.values, f'{hint}.{fname}', path.fresh_name('lazy'))
+                else:
+                    fields[fname] = self.fresh(path, ft, f'{hint}.{fname}')
             return path.alloc(Obj(cls, fields, mdl))
         if isinstance(t, C.Opaque):
             return path.fresh_sym(('opq', t.tag), hint)
         if isinstance(t, C.Callback):
             eff = self.spec_func(t.effect) if t.effect is not None else None
-            return CallbackVal(t.name, eff, t.returns)
+            return CallbackVal(t.name, eff, t.returns, t.raises)
         if isinstance(t, C.ListOf):
             return path.alloc(LObj(None, path.fresh_sym(('seq', kind_of_T(t.t)), hint), t.flavor))
         if isinstance(t, C.TupleOf):
@@ -428,6 +435,10 @@ class Config:
                         self.havoc_map(path, cur, n)
                     elif isinstance(ft, C.Event) and isinstance(tgt, Obj):
                         tgt.fields['_flag'] = path.fresh_sym('bool', n)
+                    elif isinstance(ft, C.OneOf) and len(ft.values) > 1:
+                        from .values import LazyVal
+
+                        ho.fields[n] = LazyVal(ft.values, n, path.fresh_name('lazy'))
                     else:
                         ho.fields[n] = self.fresh(path, ft, n)
             elif isinstance(ho, BAObj):
@@ -588,6 +599,8 @@ class Config:
             try:
                 r = path.run_func(cb.effect, [path.ghost] + list(args), kwargs)
             except PyExc as e:
+                if cb.raises and issubclass(path.exc_class_of(e.value), cb.raises):
+                    raise
                 raise Unsupported(f'ghost effect of {cb.name} raised {e.value!r}')
             finally:
                 path.spec_mode -= 1
@@ -599,6 +612,7 @@ class Config:
 
     def apply_contract(self, path, c2, f, args, kwargs):
         path.used_contracts.add(c2.key)
+        path.abstraction_used = True  # the callee is known only through its contract
         env = path.bind_args(f, args, kwargs)
         n = path.loop_counters.get('call', 0) + 1
         path.loop_counters['call'] = n
@@ -817,6 +831,8 @@ def verify(registry, top, tier='quick', max_paths=4000, collect_pre=True):
                 continue
             seen.add(ob.key)
             ob.info['prestate'] = getattr(path, 'prestate', None)
+            if ob.kind in ('inv-preserved', 'variant') or ob.info.get('after_head'):
+                ob.info['headstate'] = getattr(path, 'headstate', None)
             ob.info['decisions'] = tuple(path.decisions)
             res.obligations.append(ob)
     res.feas_checks = explorer.feas_checks
@@ -843,7 +859,7 @@ def run_path(cfg, path, top, func, is_lemma):
         for cl in cfg.clauses(path, top.requires, env):
             path.assume(cl)
     path.check_feasible_now()
-    path.prestate = {'env': dict(env), 'ghost': path.ghost, 'heap': {oid: o.clone() for oid, o in path.heap.items()}}
+    path.prestate = {'env': dict(env), 'ghost': path.ghost, 'heap': {oid: o.clone() for oid, o in path.heap.items()}, 'lazy': path.lazy}
     path.oblige(cfg.obl_name(path, 'cover', 'requires'), 'cover', True, expect_sat=True)
     path.snapshot('old')
     old_env = dict(env_g)
